@@ -103,6 +103,23 @@ pub fn check_case(c: &Case) -> CaseResult {
                 return r;
             }
         }
+        "replace-import" => {
+            // every imported function becomes a local one with an empty body; nothing else moves
+            let fids: Vec<walrus::FunctionId> = m.imports.iter().filter_map(|i| match i.kind { walrus::ImportKind::Function(f) => Some(f), _ => None }).collect();
+            if fids.is_empty() {
+                return r;
+            }
+            for f in fids {
+                if let Err(e) = m.replace_imported_func(f, |_| {}) {
+                    r.note = Some(format!("C10: replace_imported_func refused: {:#}", e));
+                    return r;
+                }
+            }
+            match c.cfg["reference"].as_str().map(wmodel::unhex).and_then(|b| decode(&b).ok()) {
+                Some(x) => reference = x,
+                None => return r,
+            }
+        }
         "insert" => {
             let fid = match m.funcs.iter_local().map(|(id, _)| id).next() {
                 Some(f) => f,
@@ -427,6 +444,27 @@ pub fn cases(args: &Args) -> Vec<Case> {
                                 coords: format!("n={},size=8,locals={},unexported function of {} nops in front of #{}", n, locals_mode, dead_nops, dead_pos),
                                 wasm,
                                 cfg: json!({"version": 4, "file_index": 0, "one_sequence": false, "low_pc": "body", "edit": edit, "range_form": range_form}),
+                            });
+                        }
+                    }
+                }
+            }
+        }
+    }
+    // imports replaced by local functions (created after parsing, but early in the arena)
+    for &n in &[1usize, 2, 3] {
+        for imports in [1usize, 2] {
+            for &s in &[8usize, 130] {
+                for locals_mode in [0u8, 2] {
+                    for range_form in ["offset", "addr"] {
+                        for edit in ["none", "replace-import"] {
+                            let wasm = wgen::families::build_leb_full(n, 0, s, true, false, imports, locals_mode);
+                            let reference = wgen::families::build_leb_full_x(n, 0, s, true, false, imports, locals_mode, true);
+                            out.push(Case {
+                                family: "dwarf".into(),
+                                coords: format!("n={},big=0,size={},nops=true,locals={},imports={}", n, s, locals_mode, imports),
+                                wasm,
+                                cfg: json!({"version": 4, "file_index": 0, "one_sequence": false, "low_pc": "body", "edit": edit, "range_form": range_form, "reference": wmodel::hex(&reference)}),
                             });
                         }
                     }
